@@ -91,6 +91,10 @@ Definition spec_step (dg : content -> string) (before : list (list (string * cop
     (* acknowledged only if the body hashes to h, and then an intact copy is on disk *)
     negb (ok2 (o_code a)) ||
     (String.eqb (dg d) h && intact_somewhere dg h (o_after a))
+  | PutShort h d n =>
+    (* the request body is what arrived (d, fewer bytes than announced): the same clause *)
+    negb (ok2 (o_code a)) ||
+    (String.eqb (dg d) h && intact_somewhere dg h (o_after a))
   end.
 
 Fixpoint spec_steps (dg : content -> string) (before : list (list (string * copy))) (ops : list op) (os : list obs) : bool :=
